@@ -180,3 +180,37 @@ package jobcontroller
 //@   ensures [C12] stuck-tasks-force-deleted: result1 == nil && forceNs(cfg) > 0 && !rj.Spec.Template.ForbidTaskForceDeletion ==>
 //@        (forall j int :: 0 <= j && j < len(tasks) && stuck(tasks[j], forceNs(cfg), old(clock)) ==> jobtasks.delReq[jobtasks.taskName(tasks[j])])
 //@   ensures [C12] cached-job-untouched: *rj == old(*rj)
+
+// ---- finalizer ------------------------------------------------------------------------------------------------------------
+
+// TEMPORARILY ASSUMED (status recomputation; see C09/C11): the Job keeps its identity, finalizers and deletion timestamp
+//@ extern func Reconciler.updateTaskRefStatus
+//@   params w, rj, tasks
+//@   modifies clock, wakeN, wakeKey, wakeAfter
+//@   ensures result0 != nil && result0.Name == rj.Name && result0.Namespace == rj.Namespace && result0.UID == rj.UID && result0.Spec == rj.Spec
+//@        && result0.Finalizers == rj.Finalizers && result0.DeletionTimestamp == rj.DeletionTimestamp
+//@   ensures result1 != nil ==> result0 == rj
+//@   ensures clock >= old(clock)
+
+//@ pure F() string = executiongroup.DeleteDependentsFinalizer
+//@ pure gone(rj *execution.Job, k int) bool = jobtasks.taskCached(rj, rj.Status.Tasks[k].Name) == nil
+
+//@ func Reconciler.handleFinishFinalizer
+//@   tags C13
+//@   requires w != nil && rj != nil
+//@   modifies jobtasks.delReq, jobtasks.forceReq, clock, wakeN, wakeKey, wakeAfter
+//@   loop 1 invariant -1 <= rangeindex && rangeindex < len(rj.Status.Tasks)
+//@   loop 1 invariant forall k int :: 0 <= k && k < len(tasks) ==> (exists j int :: 0 <= j && j <= rangeindex && tasks[k] == jobtasks.taskCached(rj, rj.Status.Tasks[j].Name) && tasks[k] != nil)
+//@   loop 1 invariant forall j int :: 0 <= j && j <= rangeindex && !gone(rj, j) ==> inTasks(tasks, jobtasks.taskCached(rj, rj.Status.Tasks[j].Name))
+//@   loop 1 invariant len(tasks) == 0 ==> (forall j int :: 0 <= j && j <= rangeindex ==> gone(rj, j))
+//@   loop 2 invariant -1 <= rangeindex && rj != nil && rj.Finalizers == old(rj.Finalizers) && rj.DeletionTimestamp == old(rj.DeletionTimestamp) && rj.Name == old(rj.Name)
+//@   ensures [C13] not-deleting-is-a-no-op: !deleting(rj) ==> result0 == rj && result1 == nil && (forall n string :: jobtasks.delReq[n] ==> old(jobtasks.delReq[n]))
+//@   ensures [C13] finalizer-removed-only-when-all-tasks-gone: result0 != nil && meta.contains(rj.Finalizers, F()) && !meta.contains(result0.Finalizers, F()) ==>
+//@        deleting(rj) && (forall k int :: 0 <= k && k < len(rj.Status.Tasks) ==> gone(rj, k))
+//@   ensures [C13] deletion-completes-once-tasks-gone: result1 == nil && deleting(rj) && meta.contains(rj.Finalizers, F())
+//@        && (forall k int :: 0 <= k && k < len(rj.Status.Tasks) ==> gone(rj, k)) ==> result0 != nil && !meta.contains(result0.Finalizers, F())
+//@   ensures [C13] remaining-tasks-are-deleted: result1 == nil && deleting(rj) && meta.contains(rj.Finalizers, F()) ==>
+//@        (forall k int :: 0 <= k && k < len(rj.Status.Tasks) && !gone(rj, k) ==>
+//@            (let t = jobtasks.taskCached(rj, rj.Status.Tasks[k].Name) in jobtasks.delReq[jobtasks.taskName(t)] || (jobtasks.taskDelSet(t) && jobtasks.taskDelNs(t) < clock)))
+//@   ensures [C13] never-forced: forall n string :: jobtasks.forceReq[n] ==> old(jobtasks.forceReq[n])
+//@   ensures [C13] cached-job-untouched: *rj == old(*rj)
